@@ -118,10 +118,11 @@ func c09Shard(t Tier, shard, n int) (run *report.Run) {
 		extras = 2
 	}
 	dl := deadline(t, 140*time.Second, 20*time.Minute)
-	cases := buildShard(e, maxLen, shard, n)
+	// (the short special histories first: they are few, and the listed finding F15 lives in one of them)
+	cases := cleanupCases(e, shard, n)
+	cases = append(cases, buildShard(e, maxLen, shard, n)...)
 	cases = append(cases, upgradeCases(e, shard, n)...) // histories containing an in-process software upgrade
 	cases = append(cases, longCases(e, shard, n)...)
-	cases = append(cases, cleanupCases(e, shard, n)...)
 	// every genesis: unusual but validation-passing genesis variants, each followed by one block of mixed traffic; they
 	// are compared several times (each execution samples Go's map iteration order anew)
 	gvNames := sortedKeys(genesisVariants)
@@ -336,6 +337,9 @@ func c09Shard(t Tier, shard, n int) (run *report.Run) {
 }
 
 func firstDiffKind(d string) string {
+	if strings.HasPrefix(d, preAnteGasTag+":") {
+		return preAnteGasTag
+	}
 	for _, k := range []string{"app hash", "tx", "query", "number of blocks"} {
 		if len(d) > 0 && containsWord(d, k) {
 			return k
